@@ -465,4 +465,86 @@ example := start_locations_exact gTwo (by decide) 3 [] sTwo1
 
 example := locations_invariant gTwo (by decide) 3 [] sTwo1 (.step _ 0 ⟨none, 0⟩ 100 (.init []) (by decide) (by decide)) 2 "vm1"
 
+/-! ## which pool a state request addresses (closing part of the model gap "worker ids that are substrings of one another")
+
+`scan_states`, `sync_states` and the test itself work with the parameters of the node COPY (`node.params["nets"]`): the pool
+examined, changed or filled is that of the worker the copy was parsed for - `g.netOf n w` in the model - whoever acts on
+the copy.  The acting worker's id only decides WHETHER it acts (`worker.id in params["name"]`, a substring test).  An earlier
+version of the model used the acting worker's pool; the two agree exactly when a worker acts on its own copies
+(`netOf_of_owner`, i.e. always under `OwnerNames`), and differ under finding F4 (`foreign_copy_request_goes_to_foreign_pool`:
+the first block of `corpus/C08/worker-id-substring.json`, which the model now reproduces). -/
+
+/-- on its own copy the acting worker's pool is addressed -/
+theorem netOf_of_owner (g : Graph) (n w : Nat) (h : (g.node n).owner = some w) : g.netOf n w = w := by
+  unfold Graph.netOf; rw [h]; rfl
+
+/-- a parsed copy a worker cares for (`relevant`) is addressed through that worker's own pool, provided the worker's id
+occurs in the copy's name only if the copy is its own - for this pair; `OwnerNames g` of `Lemmas/TravReady.lean`, the
+hypothesis of the ownership theorems, says so for all pairs -/
+theorem netOf_of_relevant (g : Graph) (n w : Nat) (hO : g.idIn w n = true → (g.node n).owner = some w)
+    (hf : (g.node n).flat = false) (hrel : relevant g w n = true) : g.netOf n w = w := by
+  unfold relevant at hrel
+  rw [hf, Bool.false_or] at hrel
+  exact netOf_of_owner g n w (hO hrel)
+
+/-- every request `scan_states` / `sync_states` send to the state control names the pool of the copy's own worker -/
+theorem state_requests_address_copy_pool (g : Graph) (s : State) (n w : Nat) (rv : Option (List String)) :
+    ∀ e ∈ (scanStates g s n w).2 ++ (syncStates g s n w rv).2,
+      ∃ act reqs sc ok, e = Event.door (g.worker (g.netOf n w)).id act reqs sc ok := by
+  intro e he
+  rcases List.mem_append.mp he with he | he
+  · unfold scanStates at he
+    dsimp only at he
+    split at he
+    · cases he
+    · rw [List.mem_singleton.mp he]; exact ⟨_, _, _, _, rfl⟩
+  · unfold syncStates at he
+    dsimp only at he
+    split at he
+    · cases he
+    · split at he
+      · rw [List.mem_singleton.mp he]; exact ⟨_, _, _, _, rfl⟩
+      · rw [List.mem_singleton.mp he]; exact ⟨_, _, _, _, rfl⟩
+
+/-- the corpus case `corpus/C08/worker-id-substring.json` (workers `net11`, `net1`; a setup test `setup01` that sets
+`vm1/s01`, two leaves; `pool_scope=own`), as the harness describes it to the driver -/
+def gF4 : Graph :=
+  let nd := fun (cls : Nat) (owner : Nat) (name pfx : String) (rank : Nat) (sets gets : List (String × String))
+      (setup cleanup : List (Nat × List String)) =>
+    ({ cls := cls, owner := some owner, name := name, pfx := pfx, rank := rank, sets := sets, gets := gets,
+       maxTries := some 1, timeout := 100, shape := .own, scope := ["own"], objs := ["vms_vm1", "vm1"],
+       setup := setup, cleanup := cleanup } : Node)
+  { workers := [{ id := "net11", swarm := "localhost" }, { id := "net1", swarm := "localhost" }],
+    nodes := [
+      nd 0 0 "all.setup01.vms.vm1.varvm1.nets.localhost.net11" "1a1" 3 [("vm1", "s01")] [] [(6, ["vm1"])]
+        [(1, ["vm1"]), (2, ["vm1"])],
+      nd 1 0 "normal.nongui.leaf0.vms.vm1.varvm1.nets.localhost.net11" "1" 0 [] [("vm1", "s01")] [(0, ["vm1"])] [],
+      nd 2 0 "normal.nongui.leaf1.vms.vm1.varvm1.nets.localhost.net11" "2" 5 [] [("vm1", "s01")] [(0, ["vm1"])] [],
+      nd 0 1 "all.setup01.vms.vm1.varvm1.nets.localhost.net1" "1a1" 4 [("vm1", "s01")] [] [(6, ["vm1"])]
+        [(4, ["vm1"]), (5, ["vm1"])],
+      nd 1 1 "normal.nongui.leaf0.vms.vm1.varvm1.nets.localhost.net1" "1" 1 [] [("vm1", "s01")] [(3, ["vm1"])] [],
+      nd 2 1 "normal.nongui.leaf1.vms.vm1.varvm1.nets.localhost.net1" "2" 6 [] [("vm1", "s01")] [(3, ["vm1"])] [],
+      { cls := 3, owner := none, name := "all.internal.stateless.noop", pfx := "1", flat := true, sharedRoot := true,
+        rank := 2, timeout := 3600, scope := [], cleanup := [(0, ["vm1"]), (3, ["vm1"])] }],
+    root := 6 }
+
+set_option maxRecDepth 100000 in
+/-- **F4 at the level of the state control** (`decide`; this is block 0 of the real run of the corpus case, event for
+event): `net1`'s id occurs in the name of `net11`'s copy of `setup01` (node 0), which it therefore cares for and - the copy
+comes first among the root's children - picks; the `check` request it sends names `net11`'s pool (the copy's parameters),
+and the test it then starts is `net11`'s copy, executed by `net1`.  `netOf` is not the acting worker here: the hypothesis of
+`netOf_of_relevant` (and with it `OwnerNames`) fails for exactly this pair. -/
+theorem foreign_copy_request_goes_to_foreign_pool :
+    (resume gF4 (initState gF4 4 []) 1 ⟨none, 0⟩ 100).2 =
+      [Event.door "net11" "check" [("vm1", "s01")] ["own"] false,
+       Event.start "net1" "0" "1a1" [("vm1", ":/pool/shared")] 1] ∧
+    relevant gF4 1 0 = true ∧ (gF4.node 0).owner = some 0 ∧ gF4.netOf 0 1 = 0 ∧
+    ((resume gF4 (initState gF4 4 []) 1 ⟨none, 0⟩ 100).1.nd 0).started = some 1 ∧
+    gF4.idIn 1 0 = true := by
+  decide +kernel
+
+/-- non-vacuity of `netOf_of_relevant`: in `gTwo` (ids `net1`, `net2`) `net2` cares for its copy of `b` (node 3), which
+is its own, and addresses its own pool -/
+example : gTwo.netOf 3 1 = 1 := netOf_of_relevant gTwo 3 1 (by decide) (by decide) (by decide)
+
 end I2N.Props.C08
